@@ -389,10 +389,11 @@ pub fn reference(name: &str, a: &[RVal]) -> RVal {
         (Str(x), Str(p)) => (chars(x), p),
         _ => return Null,
       };
+      // flags s, m and x make no difference for the alphabets used here (no line breaks in the inputs, no white space in
+      // the patterns); i compares letters without regard to case
       let ci = match a.get(2) {
         None => false,
-        Some(Str(f)) if f.is_empty() => false,
-        Some(Str(f)) if f == "i" => true,
+        Some(Str(f)) if f.chars().all(|c| "smix".contains(c)) => f.contains('i'),
         Some(Null) => return Unspec,
         Some(Str(_)) => return Unspec,
         Some(_) => return Null,
@@ -407,17 +408,29 @@ pub fn reference(name: &str, a: &[RVal]) -> RVal {
         (Str(x), Str(p), Str(r)) => (chars(x), p, chars(r)),
         _ => return Null,
       };
+      // flags s, m and x make no difference for the alphabets used here (no line breaks in the inputs, no white space in
+      // the patterns); i compares letters without regard to case
       let ci = match a.get(3) {
         None => false,
-        Some(Str(f)) if f.is_empty() => false,
-        Some(Str(f)) if f == "i" => true,
+        Some(Str(f)) if f.chars().all(|c| "smix".contains(c)) => f.contains('i'),
+        Some(Str(f)) if f.contains('q') => false,
         Some(Null) => return Unspec,
         Some(Str(_)) => return Unspec,
         Some(_) => return Null,
       };
-      let (re, g) = match re_parse(p) {
-        Some(x) => x,
-        None => return Unspec,
+      // flag q (alone or with i): every character of the pattern and of the replacement stands for itself
+      let literal = matches!(a.get(3), Some(Str(f)) if f.contains('q'));
+      if literal && !matches!(a.get(3), Some(Str(f)) if f.chars().all(|c| "qi".contains(c))) {
+        return Unspec;
+      }
+      let ci = if literal { matches!(a.get(3), Some(Str(f)) if f.contains('i')) } else { ci };
+      let (re, g) = if literal {
+        (Re::Cat(chars(p).into_iter().map(Re::Char).collect()), 0)
+      } else {
+        match re_parse(p) {
+          Some(x) => x,
+          None => return Unspec,
+        }
       };
       if re_can_match_empty(&re, g, ci) {
         return Unspec; // a pattern matching the zero-length string is an error in XPath replace
@@ -430,7 +443,10 @@ pub fn reference(name: &str, a: &[RVal]) -> RVal {
             out.extend(x[i..st].iter());
             let mut r = 0;
             while r < rep.len() {
-              if rep[r] == '$' && r + 1 < rep.len() && rep[r + 1].is_ascii_digit() {
+              if literal {
+                out.push(rep[r]);
+                r += 1;
+              } else if rep[r] == '$' && r + 1 < rep.len() && rep[r + 1].is_ascii_digit() {
                 let gi = rep[r + 1].to_digit(10).unwrap() as usize;
                 if gi == 0 {
                   out.extend(x[st..en].iter());
@@ -1122,10 +1138,12 @@ pub fn specs(thorough: bool) -> Vec<Spec> {
   let mut t = cross2(&strs, &pats);
   t.extend(with_wrong_kinds(&[s("abc"), s("b")], 2));
   out.push(Spec { name: "matches", params: Some(vec!["input", "pattern"]), tuples: t });
+  let flag_sets: Vec<RVal> = if thorough { vec!["", "i", "s", "m", "x", "si", "smix"] } else { vec!["", "i", "s", "x"] }.iter().map(|x| s(x)).collect();
+  let mixed_case: Vec<RVal> = ["ABC", "aBc", "AxB"].iter().map(|x| s(x)).collect();
   let mut t = vec![];
-  for x in &strs {
+  for x in strs.iter().chain(mixed_case.iter()) {
     for p in &pats {
-      for f in [s(""), s("i")] {
+      for f in &flag_sets {
         t.push(vec![x.clone(), p.clone(), f.clone()]);
       }
     }
@@ -1133,7 +1151,7 @@ pub fn specs(thorough: bool) -> Vec<Spec> {
   t.push(vec![s("ABC"), s("b"), s("i")]);
   t.push(vec![s("ABC"), s("b"), s("")]);
   out.push(Spec { name: "matches", params: Some(vec!["input", "pattern", "flags"]), tuples: t });
-  let reps: Vec<RVal> = ["", "#", "$1", "[$2$1]", "ab"].iter().map(|x| s(x)).collect();
+  let reps: Vec<RVal> = ["", "#", "$1", "[$2$1]", "ab", "$1c$2", "$1_", "$0$0", "$10"].iter().map(|x| s(x)).collect();
   let mut t = vec![];
   for x in &strs {
     for p in &pats {
@@ -1144,11 +1162,32 @@ pub fn specs(thorough: bool) -> Vec<Spec> {
   }
   t.extend(with_wrong_kinds(&[s("abc"), s("b"), s("#")], 3));
   out.push(Spec { name: "replace", params: Some(vec!["input", "pattern", "replacement"]), tuples: t });
+  // with flags: the whole space of the three-argument form x every set of flags (the flags other than i make no difference
+  // on these alphabets, so every one of them must give the result of the three-argument form)
   let mut t = vec![];
+  for x in strs.iter().chain(mixed_case.iter()) {
+    for p in &pats {
+      for r in &reps {
+        for f in &flag_sets {
+          t.push(vec![x.clone(), p.clone(), r.clone(), f.clone()]);
+        }
+      }
+    }
+  }
   for x in [s("abc"), s("ABC"), s("aXbXc")] {
     for p in [s("b"), s("x"), s("[ab]")] {
       for f in [s(""), s("i")] {
         t.push(vec![x.clone(), p.clone(), s("#"), f.clone()]);
+      }
+    }
+  }
+  // flag q: the pattern and the replacement are literal texts
+  for x in [s("abc"), s("a.c"), s("a$1c"), s("aBc"), s("a\\b"), s("(a)")] {
+    for p in [s("b"), s("."), s("$1"), s("B"), s("\\"), s("(a)"), s("a|b")] {
+      for r in [s("#"), s("$1"), s("\\"), s("$")] {
+        for f in [s("q"), s("qi"), s("iq")] {
+          t.push(vec![x.clone(), p.clone(), r.clone(), f.clone()]);
+        }
       }
     }
   }
